@@ -83,7 +83,7 @@ SHAPES = {
     2: [[(0, 1), (1,)], [(0,), (1, 0)]],
     3: [[(0, 1, 2), (2,)], [(0, 1), (1, 2), (0,)]],
 }
-B_ID, B_SAME, B_FEWER, B_MORE, B_EMPTY, B_RAISE = range(6)
+B_ID, B_SAME, B_FEWER, B_MORE, B_EMPTY, B_RAISE, B_PARAMS = range(7)
 
 
 def locations(W: int, w: int, mode: str) -> list:
@@ -132,6 +132,8 @@ class FBody(BasePass):
             circuit.append_gate(TG(t0 + 3500, w), list(range(w)))
         elif beh == B_EMPTY:
             circuit.clear()
+        elif beh == B_PARAMS:        # same gates, every parameter nudged (re-instantiation / retuning)
+            circuit.set_params([p + 0.25 for p in circuit.params])
         data.error = H.fe_err.get(t0, 0.0)
 
 
@@ -161,6 +163,9 @@ def ref_rewrite(beh: int, content: RC, t0: int) -> RC:
         out.ops.append([tuple(range(w)), ('T', t0 + 3500), None])
     elif beh == B_EMPTY:
         pass
+    elif beh == B_PARAMS:
+        out.ops = [[loc, (k if len(k) < 3 else ('T', k[1], tuple(p + 0.25 for p in k[2]))), None]
+                   for (loc, k, _) in content.ops]
     return out
 
 
@@ -203,7 +208,10 @@ def fe_build(src: Src, S: dict) -> Circuit:
         cyc = src.P(0, circ.num_cycles)
         base = 10 * (i + 1)
         if kind == 'T':
-            rt.nt(circ.insert_gate, cyc, TG(base, w), loc)
+            if S.get('pgates'):
+                rt.nt(circ.insert_gate, cyc, TG(base, w, (), 1), loc, [base / 8.0])
+            else:
+                rt.nt(circ.insert_gate, cyc, TG(base, w), loc)
             continue
         shapes = SHAPES[w][:S.get('nshapes', 1)]
         shape = shapes[src.P(0, len(shapes) - 1)]
@@ -211,7 +219,10 @@ def fe_build(src: Src, S: dict) -> Circuit:
         def mk() -> None:
             sub = Circuit(w)
             for k, l in enumerate(shape):
-                sub.append_gate(TG(base + k, len(l)), list(l))
+                if S.get('pgates'):
+                    sub.append_gate(TG(base + k, len(l), (), 1), list(l), [(base + k) / 8.0])
+                else:
+                    sub.append_gate(TG(base + k, len(l)), list(l))
             circ.insert_circuit(cyc, sub, loc, True)
         rt.nt(mk)
     return circ
@@ -310,7 +321,8 @@ def fe_run(xs: list) -> bool:
             op, p = before.ops[i], plan[i]
             if rf == 'sym':
                 exp_trace.append(('rf', p['t0'], res.flat(),
-                                  (op[0], ('T', op[1][1], ()) if op[1][0] == 'T' else ('B', op[1][1].flat()))))
+                                  (op[0], ('T', op[1][1], op[1][2] if len(op[1]) > 2 else ()) if op[1][0] == 'T'
+                                   else ('B', op[1][1].flat()))))
             bd.user['replaced'] = p['rep']
             if p['rep']:
                 after.ops[i][1] = ('B', res)
@@ -729,6 +741,10 @@ def obligations(tier: str) -> list[dict]:
                                          'behs': [B_EMPTY]}, T)
         ob('fe/3items/filter-bits', 'fe', {'W': 3, 'items': 'B,?,B', 'maxw': 2, 'locs': 'first', 'behs': [B_MORE]}, T)
         ob('fe/behaviours/1block', 'fe', {'W': 3, 'items': 'B', 'locs': 'all', 'nshapes': 2, 'behs': ALLB}, T)
+        ob('fe/behaviours/params/1block', 'fe', {'W': 3, 'items': 'B', 'locs': 'all', 'nshapes': 2, 'pgates': True,
+                                                  'behs': [B_ID, B_PARAMS, B_SAME]}, T)
+        ob('fe/behaviours/params/2items', 'fe', {'W': 3, 'items': '?,B', 'locs': 'first', 'pgates': True,
+                                                  'behs': [B_ID, B_PARAMS]}, T)
         ob('fe/behaviours/2blocks', 'fe', {'W': 3, 'items': 'B,B', 'locs': 'first', 'behs': ALLB}, T)
         ob('fe/less-than', 'fe', {'W': 3, 'items': 'B,B', 'locs': 'first', 'nshapes': 2, 'rf': 'less-than',
                                   'collect': 'default', 'behs': ALLB[:5]}, T)
